@@ -9,6 +9,16 @@ Require Import QV.common.Util QV.C07.Model QV.C07.Spec QV.C07.Wf.
 Import ListNotations.
 Open Scope Q_scope.
 
+(* ArithmeticPT with a TIME DEPENDENT scalar operand (polynomial in t per channel, coefficient lists), operators + and -,
+   over an atomic template: `pt op s(t)` plays pt op s(t) through an offset transformation with waveform-local time, and
+   initial_values / final_values / integral are pt's values op s(0) / s(duration) / the integral of s.  This is exactly
+   the model's pulse-with-pulse arithmetic with a polynomial FunctionPT of the template's duration on each scalar channel,
+   so such templates are embedded (no new class; all theorems of Props.v apply).  `*` and `/` are not embeddable. *)
+Definition scalar_funcs (inner : pt) (cfs : list (chan * list expr)) : pt :=
+  Multi (map (fun kv => Func (fst kv) (duration_expr inner) (snd kv)) cfs).
+Definition arith_tl (inner : pt) (op : aop) (cfs : list (chan * list expr)) : pt := AAtom inner op (scalar_funcs inner cfs).
+Definition arith_tr (cfs : list (chan * list expr)) (op : aop) (inner : pt) : pt := AAtom (scalar_funcs inner cfs) op inner.
+
 Record chobs := {
   co_chan : chan;
   co_sint : option Q;    (* integral[c] evaluated; None = does not evaluate to a number *)
